@@ -9,6 +9,8 @@
 (*     regions at the offsets / widths of 4.1.4.3; order; notify; no Drop; read_config_generation (F22)  *)
 (*  4. configuration access (C13): bounds, exact bytes, errors without a hypercall                       *)
 (*  5. HypCam                                                                                            *)
+(*  6. C12: HypCam addresses configuration space uniquely for every base (window-aligned or not)         *)
+(*  7. C12: the probing done by HypPciTransport::new leaves command and BAR registers as they were        *)
 From VD Require Import Base.Words Base.ListUpd Model.PciBus Model.Pci Model.PciSpec Model.HypPci
   Proofs.PciBusProofs Proofs.PciProofs.
 From Coq Require Import ZArith Lia ZifyBool ZifyN.
@@ -1153,4 +1155,249 @@ Example hyp_cfg_nonvacuous :
 Proof.
   cbv zeta. split; [|vm_compute; repeat split].
   intros r E. inversion E; subst r. unfold region_fits. vm_compute. repeat split; try discriminate. left; reflexivity.
+Qed.
+
+(* ===================== 6. C12: HypCam addresses configuration space uniquely ===================== *)
+(* (a) the model: for EVERY base with base + window <= 2^64 (aligned to the window or not) a valid request is
+   one hypercall at base + offset, the sum in N, inside [base, base + window), and the address determines the
+   request (C12_cam: cam_offset_ok / cam_offset_injective); (b) what a true monitor 1257 means on ANY list of
+   observations; (c) the monitor holds of the model. *)
+Lemma cam_req_valid_spec o : cam_req_valid o = true <->
+  co_bus o < 256 /\ co_dev o < 32 /\ co_fn o < 8 /\ co_reg o < 256 /\ co_reg o mod 4 = 0.
+Proof. unfold cam_req_valid. rewrite !andb_true_iff, !N.ltb_lt, N.eqb_eq. tauto. Qed.
+
+Lemma cam_stride_shift ecam : cam_stride ecam = cam_shift ecam.
+Proof. reflexivity. Qed.
+
+Theorem hyp_cam_injective m ecam base b1 d1 f1 r1 x1 b2 d2 f2 r2 x2 a1 a2 :
+  base + cam_size ecam <= two64 ->
+  b1 < 256 -> d1 < 32 -> f1 < 8 -> r1 < 256 -> r1 mod 4 = 0 ->
+  b2 < 256 -> d2 < 32 -> f2 < 8 -> r2 < 256 -> r2 mod 4 = 0 ->
+  In a1 (snd (hyp_cam_read m ecam base b1 d1 f1 r1 x1) ++ snd (hyp_cam_write m ecam base b1 d1 f1 r1 x1)) ->
+  In a2 (snd (hyp_cam_read m ecam base b2 d2 f2 r2 x2) ++ snd (hyp_cam_write m ecam base b2 d2 f2 r2 x2)) ->
+  (m_addr a1 = base + ((b1 * 256 + d1 * 8 + f1) * cam_stride ecam + r1)
+   /\ base <= m_addr a1 /\ m_addr a1 + 4 <= base + cam_size ecam /\ m_width a1 = 4)
+  /\ (m_addr a1 = m_addr a2 -> b1 = b2 /\ d1 = d2 /\ f1 = f2 /\ r1 = r2).
+Proof.
+  intros Hbase Hb1 Hd1 Hf1 Hr1 Ha1 Hb2 Hd2 Hf2 Hr2 Ha2 I1 I2.
+  destruct (hyp_cam_spec m ecam base b1 d1 f1 r1 x1 x1 Hb1 Hr1 Hbase) as (S1 & _).
+  destruct (hyp_cam_spec m ecam base b2 d2 f2 r2 x2 x2 Hb2 Hr2 Hbase) as (S2 & _).
+  destruct (S1 Hd1 Hf1 Ha1) as (E1 & W1 & _ & L1 & U1). destruct (S2 Hd2 Hf2 Ha2) as (E2 & W2 & _ & L2 & U2).
+  cbv zeta in *. rewrite E1, W1 in I1. rewrite E2, W2 in I2. cbn [snd app In] in I1, I2.
+  assert (A1 : m_addr a1 = base + ((b1 * 256 + d1 * 8 + f1) * cam_shift ecam + r1) /\ m_width a1 = 4)
+    by (destruct I1 as [<-|[<-|[]]]; split; reflexivity).
+  assert (A2 : m_addr a2 = base + ((b2 * 256 + d2 * 8 + f2) * cam_shift ecam + r2))
+    by (destruct I2 as [<-|[<-|[]]]; reflexivity).
+  destruct A1 as [A1 Wd]. rewrite cam_stride_shift. split.
+  - rewrite A1. repeat split; lia.
+  - intros E. rewrite A1, A2 in E.
+    assert (Hr1' : r1 < cam_shift ecam) by (unfold cam_shift; destruct ecam; lia).
+    assert (Hr2' : r2 < cam_shift ecam) by (unfold cam_shift; destruct ecam; lia).
+    destruct (cam_offset_ok ecam b1 d1 f1 r1 Hb1 Hd1 Hf1 Hr1' Ha1) as (O1 & _).
+    destruct (cam_offset_ok ecam b2 d2 f2 r2 Hb2 Hd2 Hf2 Hr2' Ha2) as (O2 & _).
+    apply (cam_offset_injective ecam b1 d1 f1 r1 b2 d2 f2 r2 ((b1 * 256 + d1 * 8 + f1) * cam_shift ecam + r1));
+      try assumption.
+    rewrite O2. f_equal. lia.
+Qed.
+
+(* two valid observations that pass the per-observation test and carry the same address are the same request *)
+Lemma cam_ok_same ecam base a b :
+  cam_obs_ok ecam base a = true -> cam_obs_ok ecam base b = true ->
+  cam_req_valid a = true -> cam_req_valid b = true -> co_addr a = co_addr b ->
+  co_bus a = co_bus b /\ co_dev a = co_dev b /\ co_fn a = co_fn b /\ co_reg a = co_reg b.
+Proof.
+  intros Oa Ob Va Vb E. unfold cam_obs_ok in Oa, Ob. rewrite Va in Oa. rewrite Vb in Ob.
+  rewrite !andb_true_iff in Oa, Ob.
+  destruct Oa as (((((_ & _) & _) & Aa) & _) & _). destruct Ob as (((((_ & _) & _) & Ab) & _) & _).
+  apply N.eqb_eq in Aa, Ab. unfold cam_spec_addr in Aa, Ab.
+  apply cam_req_valid_spec in Va, Vb. destruct Va as (? & ? & ? & ? & ?). destruct Vb as (? & ? & ? & ? & ?).
+  rewrite Aa, Ab in E. unfold cam_stride in E. destruct ecam; lia.
+Qed.
+
+(* what a true monitor 1257 means, for ANY list of observations *)
+Theorem hyp_cam_addrs_b_sound ecam base l :
+  base + cam_size ecam <= two64 -> hyp_cam_addrs_b ecam base l = true ->
+  (forall o, In o l -> cam_req_valid o = true ->
+     co_cls o = 0 /\ co_cnt o = 1 /\ co_width o = 4
+     /\ co_addr o = base + ((co_bus o * 256 + co_dev o * 8 + co_fn o) * cam_stride ecam + co_reg o)
+     /\ base <= co_addr o /\ co_addr o + 4 <= base + cam_size ecam)
+  /\ (forall o, In o l -> cam_req_valid o = false -> co_cls o = 2 /\ co_cnt o = 0)
+  /\ (forall a b, In a l -> In b l -> cam_req_valid a = true -> cam_req_valid b = true ->
+        co_addr a = co_addr b ->
+        co_bus a = co_bus b /\ co_dev a = co_dev b /\ co_fn a = co_fn b /\ co_reg a = co_reg b).
+Proof.
+  intros Hbase H. unfold hyp_cam_addrs_b in H.
+  replace (two64 <? base + cam_size ecam) with false in H by lia.
+  apply andb_true_iff in H. destruct H as [Hall _]. rewrite forallb_forall in Hall.
+  split; [|split].
+  - intros o Ho Hv. specialize (Hall o Ho). unfold cam_obs_ok in Hall. rewrite Hv in Hall.
+    rewrite !andb_true_iff in Hall. destruct Hall as (((((C & K) & W) & A) & L) & U).
+    apply N.eqb_eq in C, K, W, A. apply N.leb_le in L, U. unfold cam_spec_addr in A. repeat split; assumption.
+  - intros o Ho Hv. specialize (Hall o Ho). unfold cam_obs_ok in Hall. rewrite Hv in Hall.
+    apply andb_true_iff in Hall. destruct Hall as [C K]. apply N.eqb_eq in C, K. split; assumption.
+  - intros a b Ia Ib Va Vb E. exact (cam_ok_same ecam base a b (Hall a Ia) (Hall b Ib) Va Vb E).
+Qed.
+
+Lemma cam_distinct_of_ok ecam base : forall l,
+  forallb (cam_obs_ok ecam base) l = true -> cam_distinct l = true.
+Proof.
+  induction l as [|a t IH]; intros H; [reflexivity|].
+  cbn [forallb] in H. apply andb_true_iff in H. destruct H as [Ha Ht].
+  cbn [cam_distinct]. rewrite (IH Ht), andb_true_r. apply forallb_forall. intros b Ib.
+  rewrite forallb_forall in Ht. specialize (Ht b Ib).
+  destruct (cam_req_valid a) eqn:Va; [|reflexivity]. destruct (cam_req_valid b) eqn:Vb; [|reflexivity].
+  cbn [andb negb orb].
+  destruct (co_addr a =? co_addr b) eqn:E; [|rewrite orb_true_r; reflexivity].
+  apply N.eqb_eq in E. destruct (cam_ok_same ecam base a b Ha Ht Va Vb E) as (E1 & E2 & E3 & E4).
+  unfold cam_same_req. rewrite E1, E2, E3, E4, !N.eqb_refl. reflexivity.
+Qed.
+
+Lemma cam_obs_of_ok m ecam base bus dev fn reg wr x :
+  bus < 256 -> reg < 256 -> base + cam_size ecam <= two64 ->
+  cam_obs_ok ecam base (cam_obs_of m ecam base (bus, dev, fn, reg, wr, x)) = true.
+Proof.
+  intros Hb Hr Hbase.
+  destruct (hyp_cam_spec m ecam base bus dev fn reg x x Hb Hr Hbase) as (S & R).
+  unfold cam_obs_of, cam_obs_ok.
+  destruct (cam_req_valid _) eqn:Hv.
+  - apply cam_req_valid_spec in Hv.
+    assert (V : dev < 32 /\ fn < 8 /\ reg mod 4 = 0) by (destruct wr; cbn in Hv; tauto).
+    destruct V as (Hd & Hf & Ha). destruct (S Hd Hf Ha) as (E1 & E2 & _ & L & U). cbv zeta in *.
+    destruct wr; [rewrite E2|rewrite E1].
+    all: cbn [fst snd cam_class lenN length N.of_nat co_cls co_cnt co_addr co_width co_bus co_dev co_fn co_reg
+           MR MW m_addr m_width].
+    all: unfold cam_spec_addr; cbn [co_bus co_dev co_fn co_reg]; change (cam_stride ecam) with (cam_shift ecam).
+    all: rewrite !N.eqb_refl; cbn [andb].
+    all: apply andb_true_iff; split; [apply N.leb_le; lia|apply N.leb_le; lia].
+  - assert (V : 32 <= dev \/ 8 <= fn \/ reg mod 4 <> 0).
+    { destruct (N.lt_ge_cases dev 32) as [Hd|Hd]; [|auto]. destruct (N.lt_ge_cases fn 8) as [Hf|Hf]; [|auto].
+      right. right. intros Ha. assert (T : cam_req_valid (mkCO bus dev fn reg 0 0 0 0) = true)
+        by (apply cam_req_valid_spec; cbn; auto).
+      unfold cam_req_valid in Hv, T. destruct wr; cbn in Hv, T; rewrite T in Hv; discriminate. }
+    destruct (R V) as (E1 & E2). destruct wr; [rewrite E2|rewrite E1]; reflexivity.
+Qed.
+
+(* the monitor holds of the model: every list of requests (bus, register: u8), both mechanisms, EVERY base
+   with base + window <= 2^64, reads and writes *)
+Theorem hyp_cam_addrs_conform m ecam base qs :
+  Forall (fun q : N * N * N * N * bool * N => let '(bus, dev, fn, reg, wr, x) := q in bus < 256 /\ reg < 256) qs ->
+  hyp_cam_addrs_b ecam base (map (cam_obs_of m ecam base) qs) = true.
+Proof.
+  intros H. unfold hyp_cam_addrs_b.
+  destruct (N.ltb_spec two64 (base + cam_size ecam)) as [|Hbase]; [reflexivity|].
+  assert (A : forallb (cam_obs_ok ecam base) (map (cam_obs_of m ecam base) qs) = true).
+  { apply forallb_forall. intros o Ho. apply in_map_iff in Ho. destruct Ho as (q & <- & Hq).
+    rewrite Forall_forall in H. specialize (H q Hq). destruct q as [[[[[bus dev] fn] reg] wr] x].
+    destruct H as [Hb Hr]. apply cam_obs_of_ok; assumption. }
+  rewrite A. cbn [andb]. exact (cam_distinct_of_ok ecam base _ A).
+Qed.
+
+(* `|` in the place of `+` (seeded change C12-m18) is rejected: ECAM at 0x3_9800_0000, bus 0x80 *)
+Example hyp_cam_addrs_b_rejects_or :
+  hyp_cam_addrs_b true 0x398000000 [mkCO 0x80 3 0 0 0 1 (N.lor 0x398000000 (0x80 * 1048576 + 3 * 32768)) 4] = false
+  /\ hyp_cam_addrs_b true 0x398000000 [mkCO 0x80 3 0 0 0 1 (0x398000000 + (0x80 * 1048576 + 3 * 32768)) 4] = true.
+Proof. split; vm_compute; reflexivity. Qed.
+
+Example hyp_cam_addrs_nonvacuous :
+  let qs := [(0x80, 3, 0, 0, false, 7); (0xff, 31, 7, 252, true, 9); (0, 0, 0, 4, false, 0); (0, 32, 0, 0, false, 0)] in
+  0xffffffffff000000 + cam_size false <= two64 /\ 0x1000 + cam_size true <= two64
+  /\ map co_addr (map (cam_obs_of Debug true 0x1000) qs) = [0x1000 + 0x8018000; 0x1000 + 0xffff0fc; 0x1004; 0]
+  /\ hyp_cam_addrs_b true 0x1000 (map (cam_obs_of Debug true 0x1000) qs) = true.
+Proof. cbv zeta. repeat split; vm_compute; try reflexivity; intros H; discriminate H. Qed.
+
+(* ===================== 7. C12: HypPciTransport::new probes without side effects ===================== *)
+(* C12 "sizes BARs without side effects" for the probing HypPciTransport::new does (up to four bar_info calls
+   between configuration reads): on EVERY function (any six BAR registers, well-formed or not, any 16-bit
+   command value: decoding enabled or not, bits without a named flag set or not) and for every outcome of `new`
+   (transport, error, panic) the function is left exactly as it was - command register and all six BAR registers -
+   and no all-ones sizing pattern is ever written to a BAR register while address decoding is enabled. *)
+Lemma sws_nil : sizing_writes_safe [] = true.
+Proof. reflexivity. Qed.
+Lemma sws_reads d offs : sizing_writes_safe (map (read_acc d) offs) = true.
+Proof.
+  unfold sizing_writes_safe. apply forallb_forall. intros a Ha. apply in_map_iff in Ha.
+  destruct Ha as (o & <- & _). reflexivity.
+Qed.
+Lemma sws_bar_info m d i : fn_ok d -> i < 6 -> sizing_writes_safe (snd (bar_info m d i)) = true.
+Proof.
+  intros (Hlen & Hc & Hv) Hi. destruct (bar_info_no_side_effects m d i Hlen Hi Hc Hv) as (r & tr & E & S & _).
+  rewrite E. exact S.
+Qed.
+
+Ltac sws_leaf :=
+  cbn [fst snd n_log n_fn n_reqs log_reads];
+  rewrite ?sws_app, ?sws_reads, ?sws_nil;
+  repeat match goal with H : sizing_writes_safe _ = true |- _ => rewrite H; clear H end;
+  reflexivity.
+
+Theorem hyp_new_probe_restores m d :
+  fn_ok d ->
+  n_fn (snd (hyp_new FIXED m d)) = d
+  /\ f_cmd (n_fn (snd (hyp_new FIXED m d))) = f_cmd d
+  /\ bar_vals (n_fn (snd (hyp_new FIXED m d))) = bar_vals d
+  /\ sizing_writes_safe (n_log (snd (hyp_new FIXED m d))) = true.
+Proof.
+  intros Hok. destruct (hyp_new_refines m d Hok) as (_ & R & _). rewrite R.
+  split; [reflexivity|]. split; [reflexivity|]. split; [reflexivity|]. clear R.
+  unfold hyp_new. cbv zeta.
+  destruct (negb (w16 (rdw (cfg_read d) 0) =? VIRTIO_VENDOR_ID)); [sws_leaf|].
+  destruct (device_type (w16 (N.shiftr (rdw (cfg_read d) 0) 16))) as [dt|]; [|sws_leaf].
+  rewrite (scan_spec m (cfg_read d)).
+  destruct (snd (capabilities 65 (cfg_read d))); cbn [negb]; [|sws_leaf].
+  set (f := spec_found (cfg_read d) (map cap_off (fst (capabilities 65 (cfg_read d))))).
+  destruct (spec_found_bars (cfg_read d) (map cap_off (fst (capabilities 65 (cfg_read d))))) as (B1 & B2 & B3 & B4).
+  fold f in B1, B2, B3, B4.
+  set (s1 := log_reads (log_reads (mkNst d [] []) [0]) (snd (scan FIXED m (cfg_read d)))).
+  assert (H1 : n_fn s1 = d /\ n_reqs s1 = []) by (split; reflexivity).
+  assert (L1 : sizing_writes_safe (n_log s1) = true) by (subst s1; sws_leaf).
+  destruct (fd_common f) as [ic|] eqn:Ec; [|cbn [snd]; exact L1].
+  assert (Sic : sizing_writes_safe (snd (bar_info m d (ci_bar ic))) = true)
+    by (apply sws_bar_info; [exact Hok|specialize (B1 ic eq_refl); lia]).
+  rewrite (hyp_get_bar_region_eq FIXED m s1 ic) by (first [exact Hok | specialize (B1 ic eq_refl); lia]).
+  destruct H1 as [F1 R1]. rewrite F1, R1.
+  destruct (hyp_region_check FIXED m (bar_of m d (ci_bar ic)) ic COMMON_SIZE COMMON_ALIGN) as [cr|c p q|];
+    cbn [fst snd n_fn n_reqs]; try sws_leaf.
+  destruct (fd_notify f) as [inn|] eqn:En; [|sws_leaf].
+  destruct (negb (fd_mult f mod 2 =? 0)); [sws_leaf|].
+  assert (Sinn : sizing_writes_safe (snd (bar_info m d (ci_bar inn))) = true)
+    by (apply sws_bar_info; [exact Hok|specialize (B2 inn eq_refl); lia]).
+  match goal with |- context [hyp_get_bar_region FIXED m ?s inn 2 2] => set (s2 := s) end.
+  rewrite (hyp_get_bar_region_eq FIXED m s2 inn) by (first [exact Hok | specialize (B2 inn eq_refl); lia]).
+  subst s2. cbn [n_fn n_reqs n_log].
+  destruct (hyp_region_check FIXED m (bar_of m d (ci_bar inn)) inn 2 2) as [nr|c p q|];
+    cbn [fst snd n_fn n_reqs]; try sws_leaf.
+  destruct (fd_isr f) as [ii|] eqn:Ei; [|sws_leaf].
+  assert (Sii : sizing_writes_safe (snd (bar_info m d (ci_bar ii))) = true)
+    by (apply sws_bar_info; [exact Hok|specialize (B3 ii eq_refl); lia]).
+  match goal with |- context [hyp_get_bar_region FIXED m ?s ii 1 1] => set (s3 := s) end.
+  rewrite (hyp_get_bar_region_eq FIXED m s3 ii) by (first [exact Hok | specialize (B3 ii eq_refl); lia]).
+  subst s3. cbn [n_fn n_reqs n_log].
+  destruct (hyp_region_check FIXED m (bar_of m d (ci_bar ii)) ii 1 1) as [ir|c p q|];
+    cbn [fst snd n_fn n_reqs]; try sws_leaf.
+  destruct (fd_device f) as [idv|] eqn:Ed; [|sws_leaf].
+  assert (Sidv : sizing_writes_safe (snd (bar_info m d (ci_bar idv))) = true)
+    by (apply sws_bar_info; [exact Hok|specialize (B4 idv eq_refl); lia]).
+  match goal with |- context [hyp_get_bar_region FIXED m ?s idv 4 4] => set (s4 := s) end.
+  rewrite (hyp_get_bar_region_eq FIXED m s4 idv) by (first [exact Hok | specialize (B4 idv eq_refl); lia]).
+  subst s4. cbn [n_fn n_reqs n_log].
+  destruct (hyp_region_check FIXED m (bar_of m d (ci_bar idv)) idv 4 4) as [dr|c p q|];
+    cbn [fst snd n_fn n_reqs]; sws_leaf.
+Qed.
+
+(* not vacuous: command 0xf887 (decoding enabled, every bit without a named flag set): `new` returns a transport
+   after three probes, each of which clears exactly the two decode bits (0xf884), writes the all-ones pattern and
+   puts 0xf887 back; the seeded change C12-m19 would leave 0x0407 *)
+Example hyp_new_probe_nonvacuous :
+  let d := mkFn 0xf887 16 (f_bars wit_good) (f_regs wit_good) in
+  fn_ok d
+  /\ fst (hyp_new FIXED Debug d) = HNOk wit_t_good
+  /\ f_cmd (n_fn (snd (hyp_new FIXED Debug d))) = 0xf887
+  /\ map a_val (filter (fun a => a_write a && (a_off a =? 4)) (n_log (snd (hyp_new FIXED Debug d))))
+     = [0xf884; 0xf887; 0xf884; 0xf887; 0xf884; 0xf887]
+  /\ lenN (filter (fun a => a_write a && is_bar_off (a_off a) && (a_val a =? ones32)) (n_log (snd (hyp_new FIXED Debug d)))) = 3.
+Proof.
+  cbv zeta. split; [|repeat split; vm_compute; reflexivity].
+  unfold fn_ok. cbn [f_bars f_cmd]. repeat split; try reflexivity.
+  intros j Hj. assert (Hc : j = 0 \/ j = 1 \/ j = 2 \/ j = 3 \/ j = 4 \/ j = 5) by lia.
+  destruct Hc as [->|[->|[->|[->|[->| ->]]]]]; vm_compute; reflexivity.
 Qed.
